@@ -500,6 +500,17 @@ func c19ExecQuery(c c19QCase) kit.Outcome {
 		o.Viol = kit.V("valid-rejected:"+feature, "parseSearchQuery(%q) failed with %q; the query is well-formed: %s", c.Q, err.Error(), c19Describe(ref))
 		return o
 	}
+	if len(expReq) > 0 && len(expOpt) > 0 {
+		// "aaa bbb, ccc" = "(bbb OR ccc) AND aaa" (docs/API.md): next to AND terms the OR group is one
+		// more required disjunction, it must not come back as optional (ranking-only) terms.
+		if len(opt) > 0 || len(req) != len(expReq)+1 {
+			o.Viol = kit.V("or-group-not-required:"+feature, "parseSearchQuery(%q) = required %q, optional %q: with AND terms present the OR group must be the last required disjunction; want %s",
+				c.Q, req, opt, c19Describe(ref))
+			return o
+		}
+		opt = req[len(req)-1]
+		req = req[:len(req)-1]
+	}
 	if !c19MatchReq(expReq, req) || !c19MatchOpt(expOpt, opt) {
 		// categorise the difference for the signature
 		wantAll, wantReq := map[string]int{}, map[string]int{}
